@@ -151,9 +151,11 @@ def run_family(prop, name, cfgs, rand_cfg, binary, seed, tier, tlc_workers=3, ra
             for j, c in enumerate(cfgs):
                 f.write(json.dumps({"id": f"{name}.d{j}", "fam": c["fam"], "cfg": c, "drive": "dfs",
                                     "limit": max(4 * len(beh), 20000), "twosub": twosub}) + "\n")
-        if rand_cfg is not None and rand_count > 0:
-            f.write(json.dumps({"id": f"{name}.r", "fam": rand_cfg["fam"], "cfg": rand_cfg, "drive": "rand",
-                                "seed": seed, "count": rand_count, "twosub": twosub}) + "\n")
+        rcs = [] if rand_cfg is None else (rand_cfg if isinstance(rand_cfg, list) else [rand_cfg])
+        for j, rc_ in enumerate(rcs):
+            if rand_count > 0:
+                f.write(json.dumps({"id": f"{name}.r{j}", "fam": rc_["fam"], "cfg": rc_, "drive": "rand",
+                                    "seed": seed, "count": rand_count, "twosub": twosub}) + "\n")
     tr_file = os.path.join(wd, "traces.ndjson")
     th = time.time()
     run_harness(binary, scen_file, tr_file, env_extra=env_extra)
